@@ -158,7 +158,10 @@ OnErr(s, e) ==
                        [] e.det.k = "badlen" -> {"C06"} [] OTHER -> {}
         tagprops == IF N.c = "enum" /\ F.ph = "bad" THEN {"C10"} ELSE {}
         scalarprops == IF N.c = "scalar" THEN {"C05"} ELSE {}
-    IN IF F.ph = "jbad" THEN [s1 EXCEPT !.stack = AddSince(s.stack, e.id)]        \* opaque: serde_json::Value target holding a non-finite float
+    IN IF F.ph = "jbad" THEN
+            \* the serde_json::Value target recurses without probes: its reports are judged by where they point
+            IF e.det.k = "unexpected" /\ e.loc \in NonFiniteLeaves(F.val, F.loc) THEN Seen([s1 EXCEPT !.stack = AddSince(s.stack, e.id)], {"C04", "C13"})
+            ELSE Flag(s1, {"C04", "C13"}, "a serde_json::Value target reports something else than a float that JSON cannot hold, or somewhere else")
        ELSE IF exact # {} THEN Seen([s1 EXCEPT !.stack = AfterErr(s.stack, e.id, pick(exact).ob, e.ans)], {"C04", "C02", "C03"} \cup kindprops \cup tagprops)
        ELSE IF samek # {} THEN
             LET c == pick(samek) IN
@@ -179,7 +182,9 @@ OnMrg(s, e) ==
     ELSE
     LET F == Top(s.stack)
         s1 == [s EXCEPT !.nbrk = IF e.ans = "b" THEN @ + 1 ELSE @]
-    IN IF F.ph = "jbad" THEN s1
+    IN IF F.ph = "jbad" THEN
+            (IF Len(e.loc) > Len(F.loc) /\ \E lf \in NonFiniteLeaves(F.val, F.loc) : Len(e.loc) <= Len(lf) /\ SubSeq(lf, 1, Len(e.loc)) = e.loc
+             THEN s1 ELSE Flag(s1, {"C04"}, "a hand-over inside a serde_json::Value target is not located on the way to the faulty float"))
        ELSE IF F.ph \in {"fnm1", "fnm2", "fnmA", "fnm0"} THEN
             \* the error of a user function on its way into the error type
             LET c == CHOOSE x \in Candidates(s.stack, s.cur) : x.e = "mrg" /\ x.ans = e.ans
